@@ -332,10 +332,13 @@ def dispatch2 (op : String) (args : List SExp) : Option String :=
         else if root == "unrelated" then some .unrelated else none
       let k : Option CertKind := if cert == "valid" then some .valid else if cert == "wrongname" then some .wrongName else if cert == "expired" then some .expired
         else if cert == "selfsigned" then some .selfSigned else if cert == "unknownca" then some .unknownCa else none
+      -- optional: host kind, then the scheme the target is written with (ipps / https: the same TLS set-up)
       let h : Option HostKind := match more with
         | [] => some .dns
         | [.atom "dns"] => some .dns
         | [.atom "ip"] => some .ip
+        | [.atom "dns", .atom sch] => if sch == "ipps" || sch == "https" then some .dns else none
+        | [.atom "ip", .atom sch] => if sch == "ipps" || sch == "https" then some .ip else none
         | _ => none
       match b, c, i, r, k, h with
       | some b, some c, some i, some r, some k, some h =>
